@@ -87,17 +87,6 @@ theorem patch_conditions (ri : ℚ) (isCenterPixel : Bool) (r : ℚ)
   simp only [Bool.and_eq_true, decide_eq_true_eq] at h
   exact ⟨h.1, h.2.2, h.2.1⟩
 
-theorem patch_wiring :
-    Gen.patch_before_normalize = true ∧ Gen.patch_only_in_loop = true ∧
-    Gen.patch_store_guard = "i == 0 and patch_index is not None" ∧
-    (∀ ri : ℚ, Gen.patch_value ri = 1 - ri) ∧
-    (∀ yy xx sy sx : ℤ, Gen.patch_inside yy xx sy sx = true ↔ (0 ≤ yy ∧ yy < sy ∧ 0 ≤ xx ∧ xx < sx)) := by
-  refine ⟨rfl, rfl, rfl, fun ri => rfl, ?_⟩
-  intro yy xx sy sx
-  unfold Gen.patch_inside
-  simp only [Bool.and_eq_true, decide_eq_true_eq, ge_iff_le]
-  tauto
-
 /-- a pixel at distance `≥ 0.5` from the centre is never patched: there the returned bins are
 the plain bins, so the partition of unity of `partition_of_unity` is what the code returns -/
 theorem binsAt_unpatched (R ri : ℚ) (n : ℕ) (isCenterPixel : Bool) (r : ℚ) (hr : 1 / 2 ≤ r) :
@@ -157,9 +146,6 @@ theorem normalized_sum_one (vals : List ℚ) (hs : vals.sum ≠ 0) :
     | nil => simp
     | cons a t ih => simp only [List.map_cons, List.sum_cons, ih]; ring
   rw [key, div_self hs]
-
-theorem normalize_wiring :
-    Gen.normalize_body = "s = vals.sum() ; if not np.isclose(s, 0): vals /= s" := rfl
 
 /-- **ring + inner disk = outer disk** (antialiased, one bin each; `ri ≥ 1`, `R - ri ≥ 1`):
 at every unpatched pixel … -/
